@@ -484,10 +484,11 @@ class LiftCompoundToChunk(Case):
     module = "gene.interval"
     shard_depth = 4
 
-    def __init__(self, n):
-        self.n = n
+    def __init__(self, n, overlap=False):
+        self.n, self.overlap = n, overlap
         self.tier = "thorough" if n >= 3 else "quick"
-        self.name = f"AbstractInterval.liftover_location_to_seq_chunk_parent[{n} blocks incl. zero-length -> chunk of either strand]"
+        self.name = (f"AbstractInterval.liftover_location_to_seq_chunk_parent[{n} blocks "
+                     f"{'that may overlap or nest' if overlap else 'incl. zero-length'} -> chunk of either strand]")
         self.call = ("(lambda r: (r, r.lift_over_to_first_ancestor_of_type(SequenceType.CHROMOSOME) "
                      "if r is not EmptyLocation() else None))"
                      "(AbstractInterval.liftover_location_to_seq_chunk_parent(loc, chunk))")
@@ -502,7 +503,7 @@ class LiftCompoundToChunk(Case):
 
     def inputs(self, S):
         from .gene_common import block_lists, strand_of
-        starts, ends = block_lists(S, "loc", self.n, nonempty=False)
+        starts, ends = block_lists(S, "loc", self.n, nonempty=not self.overlap, allow_overlap=self.overlap)
         strand = strand_of(S, "strand")
         loc = S.new(COMPOUND, starts, ends, strand)
         chunk, cs, ce, minus = chunk_parent_stranded(S)
@@ -513,6 +514,9 @@ class LiftCompoundToChunk(Case):
     def samples(self, rng):
         from .gene_common import sample_blocks
         d = sample_blocks(rng, "loc", self.n, length=(0, 1, 2, 4), gap=(0, 1, 3))
+        if self.overlap:
+            bl = sorted((lambda a: (a, a + rng.randint(1, 5)))(rng.randint(0, 8)) for _ in range(self.n))
+            d = {"loc_starts": [b[0] for b in bl], "loc_ends": [b[1] for b in bl]}
         d.update(sample_chunk(rng))
         if d["chunk_end"] == d["chunk_start"]:
             d["chunk_end"] += 1
@@ -755,6 +759,6 @@ CASES += [FromChunkRelativeLocation(k, n) for k in ("feature", "transcript", "cd
 CASES += [CodingTranscriptFromChunk(), LiftThroughNamedPlacements()]
 CASES += [FromLocationRefusesChunkAncestry(k, d) for k in ("feature", "transcript") for d in (1, 2)]
 CASES += [ChunkInsideIntron(k) for k in ("feature", "transcript", "cds")]
-CASES += [LiftCompoundToChunk(2), LiftCompoundToChunk(3)]
+CASES += [LiftCompoundToChunk(2), LiftCompoundToChunk(3), LiftCompoundToChunk(2, overlap=True)]
 CASES += [ChildLocationOfParent(n, via) for n in (1, 2) for via in (
     "constructor on a parent that already holds a location", "reverse_strand", "reset_strand", "shift_position")]
